@@ -57,8 +57,15 @@ def main(argv):
     try:
         repo = Repo()
         ctx = core.Ctx(prop, repo, tier)
-        mod.run(ctx)
         known = core.load_known()
+        try:
+            mod.run(ctx)
+        except AnalysisError:
+            # a construct outside the analysed fragment stops the analysis; violations already established are reported first
+            viol, kf = core.triage(ctx, known)
+            if not viol:
+                raise
+            ctx.notes.append("analysis stopped early on a construct outside the analysed fragment; the violations found before that point are reported")
         viol, kf = core.triage(ctx, known)
         if not viol:
             # an instance count below its floor is an analysis hole (exit 2) -- unless a violation was already found, which is reported first
